@@ -442,6 +442,19 @@ Example C12_strict_hypotheses_satisfiable :
   snd (vrun nnone ex_sig no_env (ex_deco ARGS true) false c) = FRaise TooManyArgumentsC None.
 Proof. repeat split. Qed.
 
+(* ... and a POSITIONAL argument without Parameter, at the FIRST position of a plain function and named like Python's implicit
+   class argument (names: cls=12, amount=1): def build(cls, amount) with a Parameter for amount only; nothing binds cls
+   implicitly, build(7, 5) is refused like any other undeclared argument - by position and by keyword *)
+Example C12_strict_positional_first_hypotheses_satisfiable :
+  let sg := mksig [(12, None); (1, None)] in
+  let dc := {| d_params := [mkparam 1 [at_most 5] true None]; d_mode := ARGS; d_strict := true; d_ignore_input := false |} in
+  let c := {| c_args := [7; 5]; c_kwargs := [] |} in
+  arrival nat sg dc c = Some [(true, (12, 7)); (true, (1, 5))] /\
+  declared nat dc 12 = false /\ 12 <> self_name /\
+  snd (vrun nnone sg no_env dc false c) = FRaise TooManyArgumentsC None /\
+  snd (vrun nnone sg no_env dc false {| c_args := []; c_kwargs := [(12, 7); (1, 5)] |}) = FRaise TooManyArgumentsC None.
+Proof. repeat split. discriminate. Qed.
+
 Example C12_default_cascade_hypotheses_satisfiable :
   let c := {| c_args := [3; 1]; c_kwargs := [] |} in
   vrun nnone ex_sig no_env (ex_deco KWARGS_WITHOUT_NONE true) true c =
